@@ -155,7 +155,8 @@ class Semaphore(Entity):
                 f"cannot acquire {count} permits from semaphore with capacity {self._capacity}"
             )
 
-        if self.try_acquire(count):
+        # Never ahead of already-queued waiters (strict FIFO, like Resource.acquire)
+        if not self._waiters and self.try_acquire(count):
             yield 0.0
             return
 
